@@ -5,8 +5,11 @@ package deflate
 
 import (
 	"compress/flate"
+	"errors"
 	"io"
 )
+
+var errWriterClosed = errors.New("flate: closed writer")
 
 type Writer struct {
 	err error
@@ -111,6 +114,9 @@ func (w *Writer) Flush() (err error) {
 }
 
 func (w *Writer) Close() (err error) {
+	if w.err == errWriterClosed {
+		return nil
+	}
 	if w.err != nil {
 		return w.err
 	}
@@ -118,5 +124,9 @@ func (w *Writer) Close() (err error) {
 		return w.w.Close()
 	}
 	w.err = w.lc.Close()
-	return w.err
+	if w.err != nil {
+		return w.err
+	}
+	w.err = errWriterClosed
+	return nil
 }
